@@ -1001,25 +1001,52 @@ class Interp:
         if (tr == "std::iter::IntoIterator" and nm == "into_iter") or (nm in ("iter", "iter_mut", "into_iter", "chars", "lines", "enumerate") and not fn.get("resolved_local") and False):
             return [(st, ("op", "into_iter", (self.resolve(st, args[0]),)))]
         if tr == "std::iter::Iterator" and nm == "next" and not fn.get("resolved_local"):
-            itp = args[0]
-            it = self.deref(st, itp) if itp[0] == "ref" else itp
-            rit = self.resolve(st, it)
-            n = sum(1 for e in st.events if e[0] == "iter_next" and e[1] == rit)
-            out = []
-            if n < self.loop_bound:
-                s2 = st.fork()
-                s2.events.append(("iter_next", rit, n))
-                elem = ("iter", rit, n)
-                s2.conds.append((("call", "next", (rit,), n), "is", "Some"))
-                out.append((s2, self.mk(O, "Some", elem)))
-            else:
-                st.flags.add("loop_bound_hit")
-            s3 = st.fork() if out else st
-            s3.conds.append((("call", "next", (rit,), n), "is", "None"))
-            s3.events.append(("iter_end", rit, n))
-            out.append((s3, self.mk(O, "None")))
-            return out
+            return self.iter_next(st, args[0])
+        if tr == "std::iter::Iterator" and nm == "try_fold" and len(args) == 3 and not fn.get("resolved_local"):
+            # `it.try_fold(init, f)` is the loop `let mut acc = init; for x in it { acc = f(acc, x)? } Ok(acc)`
+            # (same iterator protocol and bound as a for loop, so both spellings give the same summary)
+            rty = self.f.ty(fn["args"][-1]) if fn.get("args") else None
+            radt = (rty or {}).get("adt")
+            if radt in (R, O):
+                return self.try_fold(st, args[0], args[1], args[2], radt, depth, stack)
         return None
+
+    def iter_next(self, st, itp):
+        O = self.OPTION
+        it = self.deref(st, itp) if itp[0] == "ref" else itp
+        rit = self.resolve(st, it)
+        n = sum(1 for e in st.events if e[0] == "iter_next" and e[1] == rit)
+        out = []
+        if n < self.loop_bound:
+            s2 = st.fork()
+            s2.events.append(("iter_next", rit, n))
+            elem = ("iter", rit, n)
+            s2.conds.append((("call", "next", (rit,), n), "is", "Some"))
+            out.append((s2, self.mk(O, "Some", elem)))
+        else:
+            st.flags.add("loop_bound_hit")
+        s3 = st.fork() if out else st
+        s3.conds.append((("call", "next", (rit,), n), "is", "None"))
+        s3.events.append(("iter_end", rit, n))
+        out.append((s3, self.mk(O, "None")))
+        return out
+
+    def try_fold(self, st, itp, acc, f, radt, depth, stack, rounds=0):
+        O, R = self.OPTION, self.RESULT
+        out = []
+        for s2, nxt in self.iter_next(st, itp):
+            if nxt[2] == "None":
+                out.append((s2, self.mk(R, "Ok", acc) if radt == R else self.mk(O, "Some", acc)))
+                continue
+            for s3, r in self.apply(s2, f, [acc, nxt[3][0]], depth + 1, stack):
+                for s4, var, pl in self.cases(s3, r, radt):
+                    if var in ("Ok", "Some"):
+                        out += self.try_fold(s4, itp, pl[0], f, radt, depth, stack, rounds + 1)
+                    elif radt == R:
+                        out.append((s4, self.mk(R, "Err", pl[0])))
+                    else:
+                        out.append((s4, self.mk(O, "None")))
+        return out
 
     def convert(self, st, fn, v, src, dst, depth, stack, trait="std::convert::From", method="from"):
         """T -> U through a local `impl From<T> for U` (or TryFrom), else an opaque conversion term"""
